@@ -527,7 +527,7 @@ func runC01(tier string) int {
 	fams := []struct {
 		name  string
 		cases []*batch.Case
-	}{{"shape", genShapes()}, {"stmt", genStmts()}, {"func", genFuncs()}, {"cell", genCells(d)}}
+	}{{"shape", genShapes()}, {"stmt", genStmts()}, {"func", genFuncs()}, {"effect", genEffects()}, {"cell", genCells(d)}}
 	var total batch.Stats
 	distinct := map[string]bool{}
 	for _, f := range fams {
